@@ -1,3 +1,4 @@
+use crate::architecture::Endian;
 use crate::il::Expression as Expr;
 use crate::il::*;
 use crate::Error;
@@ -1098,47 +1099,56 @@ pub fn lw(
     Ok(())
 }
 
+/// Operands shared by lwl, lwr, swl and swr: the register, the aligned word
+/// address, and eight times the number of bytes between the effective address
+/// and the most-significant end of its aligned word (the byte offset on
+/// big-endian, three minus the byte offset on little-endian).
+fn unaligned_word_operands(
+    instruction: &capstone::Instr,
+    endian: &Endian,
+) -> Result<(Scalar, Expr, Expr), Error> {
+    let detail = details(instruction)?;
+
+    let rt = get_register(detail.operands[0].reg())?.scalar();
+    let base = get_register(detail.operands[1].mem().base)?.expression();
+    let offset = expr_const(detail.operands[1].mem().disp as u64, 32);
+
+    let address = Expr::add(base, offset)?;
+    let aligned_address = Expr::and(address.clone(), expr_const(0xffff_fffc, 32))?;
+    let byte_offset = Expr::and(address, expr_const(3, 32))?;
+    let byte_offset = match *endian {
+        Endian::Big => byte_offset,
+        Endian::Little => Expr::xor(byte_offset, expr_const(3, 32))?,
+    };
+    let bit_offset = Expr::shl(byte_offset, expr_const(3, 32))?;
+
+    Ok((rt, aligned_address, bit_offset))
+}
+
 pub fn lwl(
     control_flow_graph: &mut ControlFlowGraph,
     instruction: &capstone::Instr,
+    endian: &Endian,
 ) -> Result<(), Error> {
-    let detail = details(instruction)?;
-
-    // get operands
-    let dst = get_register(detail.operands[0].reg())?.scalar();
-    let base = get_register(detail.operands[1].mem().base)?.expression();
-    let offset = expr_const(detail.operands[1].mem().disp as u64, 32);
+    let (rt, aligned_address, bit_offset) = unaligned_word_operands(instruction, endian)?;
 
     let block_index = {
         let block = control_flow_graph.new_block()?;
 
-        let address = Expr::add(base, offset)?;
-
-        // get the number of bits to clear
-        let bytes_to_clear = Expr::sub(
-            expr_const(4, 32),
-            Expr::and(expr_const(3, 32), address.clone())?,
-        )?;
-        let bits_to_clear = Expr::shl(bytes_to_clear, expr_const(3, 32))?;
-
-        // get the number of bytes to shift the result
-        let bytes_to_shift = Expr::and(expr_const(3, 32), address.clone())?;
-        let bits_to_shift = Expr::shl(bytes_to_shift, expr_const(3, 32))?;
-
+        // only the aligned word containing the address is accessed
         let tmp = Scalar::temp(instruction.address, 32);
-        block.load(tmp.clone(), address);
+        block.load(tmp.clone(), aligned_address);
 
-        // clear the dst register by shifting left then right
-        let dst_expr = Expr::shl(dst.clone().into(), bits_to_clear.clone())?;
-        let dst_expr = Expr::shr(dst_expr, bits_to_clear)?;
+        // the bytes from the address to the least-significant end of the word
+        // go to the most-significant end of rt, the rest of rt is kept
+        let loaded = Expr::shl(tmp.into(), bit_offset.clone())?;
+        let keep_mask = Expr::sub(
+            Expr::shl(expr_const(1, 32), bit_offset)?,
+            expr_const(1, 32),
+        )?;
+        let kept = Expr::and(rt.clone().into(), keep_mask)?;
 
-        // zero out the right bits in the loaded word
-        let tmp = Expr::shl(Expr::shr(tmp.into(), bits_to_shift.clone())?, bits_to_shift)?;
-
-        // or together
-        let dst_expr = Expr::or(dst_expr, tmp)?;
-
-        block.assign(dst, dst_expr);
+        block.assign(rt, Expr::or(loaded, kept)?);
 
         block.index()
     };
@@ -1152,41 +1162,30 @@ pub fn lwl(
 pub fn lwr(
     control_flow_graph: &mut ControlFlowGraph,
     instruction: &capstone::Instr,
+    endian: &Endian,
 ) -> Result<(), Error> {
-    let detail = details(instruction)?;
-
-    // get operands
-    let dst = get_register(detail.operands[0].reg())?.scalar();
-    let base = get_register(detail.operands[1].mem().base)?.expression();
-    let offset = expr_const(detail.operands[1].mem().disp as u64, 32);
+    let (rt, aligned_address, bit_offset) = unaligned_word_operands(instruction, endian)?;
 
     let block_index = {
         let block = control_flow_graph.new_block()?;
 
-        let address = Expr::sub(Expr::add(base, offset)?, expr_const(3, 32))?;
-
-        // create a bit mask for dst and the loaded result
-        let mask_bytes = Expr::and(address.clone(), expr_const(3, 32))?;
-        let mask_bits = Expr::shl(mask_bytes, expr_const(3, 32))?;
-        let mask_bit = Expr::shl(expr_const(1, 32), mask_bits)?;
-        let mask = Expr::sub(mask_bit, expr_const(1, 32))?;
-
-        // load our word from memory
+        // only the aligned word containing the address is accessed
         let tmp = Scalar::temp(instruction.address, 32);
-        block.load(tmp.clone(), address);
+        block.load(tmp.clone(), aligned_address);
 
-        // we want to and this word with our mask to remove the high bits
-        let temp = Expr::and(tmp.into(), mask.clone())?;
-
-        // and out the bits we're about to set in dst
-        let dst_expr = Expr::and(
-            dst.clone().into(),
-            Expr::sub(expr_const(0xffff_ffff, 32), mask)?,
+        // the bytes from the most-significant end of the word to the address
+        // go to the least-significant end of rt, the rest of rt is kept
+        let loaded = Expr::shr(
+            tmp.into(),
+            Expr::sub(expr_const(24, 32), bit_offset.clone())?,
         )?;
+        let keep_mask = Expr::shl(
+            expr_const(0xffff_ffff, 32),
+            Expr::add(bit_offset, expr_const(8, 32))?,
+        )?;
+        let kept = Expr::and(rt.clone().into(), keep_mask)?;
 
-        let dst_expr = Expr::or(dst_expr, temp)?;
-
-        block.assign(dst, dst_expr);
+        block.assign(rt, Expr::or(loaded, kept)?);
 
         block.index()
     };
@@ -2460,50 +2459,27 @@ pub fn sw(
 pub fn swl(
     control_flow_graph: &mut ControlFlowGraph,
     instruction: &capstone::Instr,
+    endian: &Endian,
 ) -> Result<(), Error> {
-    let detail = details(instruction)?;
-
-    // get operands
-    let rt = get_register(detail.operands[0].reg())?.expression();
-    let base = get_register(detail.operands[1].mem().base)?.expression();
-    let offset = expr_const(detail.operands[1].mem().disp as u64, 32);
+    let (rt, aligned_address, bit_offset) = unaligned_word_operands(instruction, endian)?;
 
     let block_index = {
         let block = control_flow_graph.new_block()?;
 
-        let address = Expr::add(base, offset)?;
-
         // load the value currently in memory
         let tmp = Scalar::temp(instruction.address, 32);
-        block.load(
-            tmp.clone(),
-            Expr::and(expr_const(0xffff_fffc, 32), address.clone())?,
-        );
+        block.load(tmp.clone(), aligned_address.clone());
 
-        // create a mask for our value
-        let mask_bytes = Expr::and(address.clone(), expr_const(3, 32))?;
-        // we want the opposite of the number of bytes we are storing
-        let mask_bytes = Expr::sub(expr_const(4, 32), mask_bytes)?;
-        let mask_bits = Expr::shl(mask_bytes, expr_const(3, 32))?;
+        // the most-significant bytes of rt replace the bytes from the address
+        // to the least-significant end of the word
+        let stored_mask = Expr::shr(expr_const(0xffff_ffff, 32), bit_offset.clone())?;
+        let kept = Expr::and(
+            tmp.into(),
+            Expr::xor(stored_mask, expr_const(0xffff_ffff, 32))?,
+        )?;
+        let stored = Expr::shr(rt.into(), bit_offset)?;
 
-        let mask = Expr::sub(Expr::shl(expr_const(1, 32), mask_bits)?, expr_const(1, 32))?;
-
-        // and the loaded value with our mask
-        // this operation inverts the mask
-        let tmp = Expr::and(Expr::sub(expr_const(0xffff_ffff, 32), mask)?, tmp.into())?;
-
-        // figure out how many bits we should shift our value right
-        let shift_bytes = Expr::and(address.clone(), expr_const(3, 32))?;
-        let shift_bits = Expr::shl(shift_bytes, expr_const(3, 32))?;
-
-        // shift the value right
-        let rt = Expr::shr(rt, shift_bits)?;
-
-        // or them together
-        let expr = Expr::or(tmp, rt)?;
-
-        // store it back in memory
-        block.store(Expr::and(expr_const(0xffff_fffc, 32), address)?, expr);
+        block.store(aligned_address, Expr::or(kept, stored)?);
 
         block.index()
     };
@@ -2517,43 +2493,28 @@ pub fn swl(
 pub fn swr(
     control_flow_graph: &mut ControlFlowGraph,
     instruction: &capstone::Instr,
+    endian: &Endian,
 ) -> Result<(), Error> {
-    let detail = details(instruction)?;
-
-    // get operands
-    let rt = get_register(detail.operands[0].reg())?.expression();
-    let base = get_register(detail.operands[1].mem().base)?.expression();
-    let offset = expr_const(detail.operands[1].mem().disp as u64, 32);
+    let (rt, aligned_address, bit_offset) = unaligned_word_operands(instruction, endian)?;
 
     let block_index = {
         let block = control_flow_graph.new_block()?;
 
-        let address = Expr::sub(Expr::add(base, offset)?, expr_const(3, 32))?;
-
-        // create a bit mask for dst and the loaded result
-        let mask_bytes = Expr::and(address.clone(), expr_const(3, 32))?;
-        let mask_bits = Expr::shl(mask_bytes, expr_const(3, 32))?;
-        let mask_bit = Expr::shl(expr_const(1, 32), mask_bits)?;
-        let mask = Expr::sub(mask_bit, expr_const(1, 32))?;
-
-        // load our word from memory
+        // load the value currently in memory
         let tmp = Scalar::temp(instruction.address, 32);
-        block.load(tmp.clone(), address.clone());
+        block.load(tmp.clone(), aligned_address.clone());
 
-        // zero out the words we're about to set in dst
-        let dst_expr = Expr::and(
-            tmp.into(),
-            Expr::sub(expr_const(0xffff_ffff, 32), mask.clone())?,
+        // the least-significant bytes of rt replace the bytes from the
+        // most-significant end of the word to the address
+        let shift = Expr::sub(expr_const(24, 32), bit_offset)?;
+        let kept_mask = Expr::sub(
+            Expr::shl(expr_const(1, 32), shift.clone())?,
+            expr_const(1, 32),
         )?;
+        let kept = Expr::and(tmp.into(), kept_mask)?;
+        let stored = Expr::shl(rt.into(), shift)?;
 
-        // zero out the bits we're not setting in rt
-        let rt = Expr::and(rt, mask)?;
-
-        // or the two together
-        let dst_expr = Expr::or(dst_expr, rt)?;
-
-        // store it back in memory
-        block.store(address, dst_expr);
+        block.store(aligned_address, Expr::or(kept, stored)?);
 
         block.index()
     };
